@@ -111,7 +111,7 @@ Definition certificate_identity (obj : edict) (a : list (item * dval)) (res : li
     (what an eigen-decomposition exhibits).  Proofs/PSDLemmas.v proves <S,A> >= 0 for such a pair and
     that a Gram matrix of vectors of any inner-product space is PSD in the first sense. *)
 Definition psd_qf (n : nat) (A : nat -> nat -> R) : Prop :=
-  (forall i j, A i j = A j i) /\
+  (forall i j, (i < n)%nat -> (j < n)%nat -> A i j = A j i) /\
   forall c : nat -> R, 0 <= sumn n (fun i => sumn n (fun j => c i * A i j * c j)).
 
 Fixpoint rank1_at (vs : list (nat -> R)) (i j : nat) : R :=
@@ -133,8 +133,8 @@ Fixpoint dual_feasible (a : list (item * dval)) : Prop :=
   | _ :: r => False
   end.
 
-(** the feasible set of the declared model, in the Gram reading: G PSD of size [np], every scalar
-    constraint holds, every LMI matrix is PSD *)
+(** the feasible set of the declared model, in the Gram reading: G symmetric and PSD of size [np], every
+    scalar constraint holds, every LMI matrix is PSD *)
 Definition item_holds (G : nat -> nat -> R) (F : nat -> R) (it : item) : Prop :=
   match it with
   | SC e s => holdsGF G F (e, s)
@@ -142,7 +142,7 @@ Definition item_holds (G : nat -> nat -> R) (F : nat -> R) (it : item) : Prop :=
   end.
 
 Definition feasible (np : nat) (l : sent) (G : nat -> nat -> R) (F : nat -> R) : Prop :=
-  psd_qf np G /\ Forall (item_holds G F) l.
+  symG G /\ psd_qf np G /\ Forall (item_holds G F) l.
 
 (** ** "Symmetric as written" (decidable guard): e_ij - e_ji, computed with the model's operators,
     symmetrised and pruned, is the empty dictionary, i.e. the two entries are the same affine
@@ -165,3 +165,21 @@ Definition wf_item (it : item) : Prop :=
   | LMI m => Forall (fun row => length row = ncols m /\ Forall wf_edict row) m
   end.
 Definition wf_sent (l : sent) : Prop := Forall wf_item l.
+
+(** ** Feasibility of a cvxpy problem (a list of solver rows) at (G, F, M) *)
+Definition row_holds (np : nat) (G : nat -> nat -> R) (F : nat -> R) (M : nat -> nat -> nat -> R)
+           (r : solver_row) : Prop :=
+  match r with
+  | RGram => psd_qf np G
+  | RLe e => evalGF G F e <= 0
+  | REq e => evalGF G F e = 0
+  | RPsd k n _ => psd_qf n (M k)
+  | REnt k i j e => M k i j = evalGF G F e
+  | RObjGe o c => Q2R c <= evalGF G F o
+  end.
+
+Definition rows_feasible (np : nat) (rows : list solver_row) G F M : Prop :=
+  symG G /\ Forall (row_holds np G F M) rows.
+
+Definition square_item (it : item) : Prop :=
+  match it with SC _ _ => True | LMI m => nrows m = ncols m end.
